@@ -87,7 +87,7 @@ fn account(ctx: &Ctx, prog: &[u8], class: &str) {
             st.nontrivial(fnv(prog));
         }
     }
-    if viol.len() <= 1 && prog.len() >= 16 {
+    if viol.len() <= 1 && prog.len() >= 16 && prog.len() <= 512 {
         st.sample(4, || json!({"bytes": isa::hex(prog), "listing": isa::listing(prog, 10), "reference": if viol.is_empty() { "accept".to_string() } else { format!("reject: {}", viol[0].name()) }}));
     }
 }
